@@ -99,6 +99,10 @@ def tie_H(res, client, runs, hang_is_violation=True, label=None, exe=None, ignor
     for run in runs:
         args = ["--seed", str(res.seed)] + run["args"]
         text, aborted = vlib.run_cases(exe, args, run["cases"], timeout=run.get("timeout", 600))
+        for a in aborted:
+            if a["rc"] not in (41, 42):
+                res.violation("%s:crash:rc=%s" % (label, a["rc"]), {"kind": "crash", "client": client, "args": run["args"], "case": a["case"],
+                                                                    "cmd": a["cmd"], "note": "the harness process died inside this case (signal/abort/sanitizer); re-run the command to reproduce"})
         verdicts = vlib.driver(["lincheck"], text) if judged else ""
         vmap = {}
         for line in verdicts.split("\n"):
@@ -248,6 +252,9 @@ def tie_A(res, client, model, runs, label=None):
     for run in runs:
         args = ["--seed", str(res.seed), "--trace", "1"] + run["args"]
         text, aborted = vlib.run_cases(exe, args, run["cases"], timeout=run.get("timeout", 600))
+        for a in aborted:
+            if a["rc"] not in (41, 42):
+                res.violation("%s:crash:rc=%s" % (label, a["rc"]), {"kind": "crash", "client": client, "args": run["args"], "case": a["case"], "cmd": a["cmd"]})
         verdicts = vlib.driver(["replay", model], text)
         vmap = {}
         for line in verdicts.split("\n"):
